@@ -140,6 +140,11 @@ impl Model {
         let mut left_wtr = BufWriter::new(left_wtr);
         for (conn_id, feat_ids) in feature_list[..feature_list.len()].iter().enumerate() {
             write!(&mut left_wtr, "{}\t", conn_id + 1)?;
+            if feat_ids.is_empty() {
+                // An id without any feature (e.g., that of a virtual edge) must not be written
+                // as an empty row, which would be read back as the empty (BOS/EOS) feature.
+                write!(&mut left_wtr, "*")?;
+            }
             for (i, feat_id) in feat_ids.iter().enumerate() {
                 if i != 0 {
                     write!(&mut left_wtr, ",")?;
@@ -163,6 +168,9 @@ impl Model {
         let mut right_wtr = BufWriter::new(right_wtr);
         for (conn_id, feat_ids) in feature_list[..feature_list.len()].iter().enumerate() {
             write!(&mut right_wtr, "{}\t", conn_id + 1)?;
+            if feat_ids.is_empty() {
+                write!(&mut right_wtr, "*")?;
+            }
             for (i, feat_id) in feat_ids.iter().enumerate() {
                 if i != 0 {
                     write!(&mut right_wtr, ",")?;
